@@ -213,4 +213,21 @@ theorem specTimex_triple (b e bm em : Int) (hb : b % 60 = 0) (he : e % 60 = 0) (
       · simp only [specificSpan, natStr]
         rw [if_neg c1, if_neg c2]; simp
 
+set_option linter.unusedSimpArgs false in
+/-- every branch of the am / pm logic moves each end by a whole number of half days and leaves them less than a day apart -/
+theorem specificShift_spec (v : Variant) (bh eh : Nat) (hbh : bh ≤ 23) (heh : eh ≤ 23) (la lp ra rp : Bool)
+    (hl : ¬(la = true ∧ lp = true)) (hr : ¬(ra = true ∧ rp = true)) (b0 e0 : Int)
+    (hb0 : (bh : Int) * 3600 ≤ b0 ∧ b0 ≤ (bh : Int) * 3600 + 3540) (he0 : (eh : Int) * 3600 ≤ e0 ∧ e0 ≤ (eh : Int) * 3600 + 3540) :
+    ((specificShift v bh eh la lp ra rp b0 e0).1 - b0) % 43200 = 0 ∧
+    ((specificShift v bh eh la lp ra rp b0 e0).2.1 - e0) % 43200 = 0 ∧
+    -86400 < (specificShift v bh eh la lp ra rp b0 e0).2.1 - (specificShift v bh eh la lp ra rp b0 e0).1 ∧
+    (specificShift v bh eh la lp ra rp b0 e0).2.1 - (specificShift v bh eh la lp ra rp b0 e0).1 < 86400 := by
+  generalize hge : v.rightAmGe = ge
+  cases ge <;> cases la <;> cases lp <;> cases ra <;> cases rp <;> simp at hl hr <;>
+    simp only [specificShift, hge, H12, H24, Bool.or_false, Bool.or_true, Bool.false_or, Bool.true_or, Bool.and_self,
+      Bool.and_false, Bool.false_and, Bool.and_true, Bool.true_and, if_true, if_false, Bool.false_eq_true, ite_true, ite_false,
+      Bool.or_self] <;>
+    (repeat' split) <;> (refine ⟨?_, ?_, ?_, ?_⟩ <;> (try dsimp only) <;> omega)
+
+
 end RTV.TimePeriod
